@@ -345,6 +345,22 @@ def json_module(A):
             ms = match("kwargs.setdefault('parse_int', _f)", n)
             if ms is not None and isinstance(ms['f'], ast.Name):
                 installs = ms['f'].id
+    hooks = set()
+    for n in ast.walk(loads.node):
+        if isinstance(n, ast.Subscript) and txt(n.value) == 'kwargs' and \
+                isinstance(n.slice, ast.Constant) and isinstance(n.ctx, ast.Store):
+            hooks.add(n.slice.value)
+        if isinstance(n, ast.Call):
+            ms = match('kwargs.setdefault(_k, _f)', n)
+            if ms is not None and isinstance(ms['k'], ast.Constant):
+                hooks.add(ms['k'].value)
+            for k in n.keywords:
+                if k.arg and k.arg.startswith('parse_') or k.arg == 'object_hook':
+                    hooks.add(k.arg)
+    A.check(hooks <= {'parse_int'}, 'C01.json-hooks', 'engineio.json.loads changes nothing but '
+            'integer parsing (no other hook that could make a valid JSON value fail to decode)',
+            A.site(loads), key='json-extra-hooks', detail=sorted(hooks),
+            behaviour='a JSON float/object/constant that is valid JSON comes back as raw text')
     A.check(bool(installs), 'C01.safe-int', 'engineio.json.loads installs a bounded parse_int',
             A.site(loads), key='json-parse-int',
             behaviour='a huge integer literal makes decode() burn CPU (no bound)')
